@@ -28,6 +28,32 @@ def ratToFloat (num : Int) (den : Nat) (e2 : Int) : Float :=
   let r := Float.scaleB (Float.ofNat q) (e2 - s)
   if num < 0 then -r else r
 
+/-- dyadic rationals `m · 2^e` (exact arithmetic on float values) -/
+structure Dy where
+  m : Int
+  e : Int
+  deriving Repr
+
+namespace Dy
+def ofInt (i : Int) : Dy := ⟨i, 0⟩
+def ofFloat? (x : Float) : Option Dy := (toDyadic? x).map fun m => ⟨m, -1074⟩
+def norm (a : Dy) : Dy :=
+  if a.m == 0 then ⟨0, 0⟩ else
+  -- strip up to 1100 trailing zero bits to keep the numbers small
+  let rec go (m : Int) (e : Int) (fuel : Nat) : Dy :=
+    match fuel with
+    | 0 => ⟨m, e⟩
+    | fuel + 1 => if m % 2 == 0 then go (m / 2) (e + 1) fuel else ⟨m, e⟩
+  go a.m a.e 1100
+def mul (a b : Dy) : Dy := ⟨a.m * b.m, a.e + b.e⟩
+def align (a b : Dy) : Int × Int × Int :=
+  if a.e ≤ b.e then (a.m, b.m * (2 : Int) ^ (b.e - a.e).toNat, a.e)
+  else (a.m * (2 : Int) ^ (a.e - b.e).toNat, b.m, b.e)
+def add (a b : Dy) : Dy := let (x, y, e) := align a b; ⟨x + y, e⟩
+def sub (a b : Dy) : Dy := let (x, y, e) := align a b; ⟨x - y, e⟩
+def toFloat (a : Dy) : Float := ratToFloat a.m 1 a.e
+end Dy
+
 /-- exact statistics of a finite sample: everything as integers over the common scale 2^-1074 -/
 structure ExactStats where
   n : Nat
